@@ -40,6 +40,8 @@ def all_names():
                 names.append(n)
     names += ['é中.txt', 'naïve file.TXT', 'a,b"c\td\ne', '<td>x<td>', '&amp;', '"quoted"', "it's", 'a,b', 'tab\there', '<!--', ']]>',
               '{"k":"v"}', '[1,2]', '<tr><tr>', 'a&b<c>d', 'x\r\ny', '\\n', 'null', '"', ',', '<', '&', "'"]
+    # an ampersand in front of what a reader of HTML takes for a character reference even without the semicolon
+    names += ['cross&section.md', 'cut&copy-paste.txt', 'q&notes.txt', 'a&lt', 'x&amp', 'a&#65', 'a&#x41', 'R&D', '&gt', 'a&reg', 'b&times2', '&quot', 'x&nbsp;y', 'a&ampb', '&#38;', '&&amp;&']
     seps = [',', '"', "'", '\t', '\n', '\r', '<', '>', '&', ';', '\\', '{', '}', '[', ']', ':', ' ', '#', '%', '=']
     for a in seps:
         for b_ in seps:
